@@ -96,3 +96,10 @@ claim("C06", "history checker over recorded PartsWriter calls (unique chunk ids,
       "increasing id == header+chunks+footer, ids unique / in range / increasing, every part but the last >= min_write_sz, finalise once with exactly the written receipts in order, header/footer "
       "callbacks saw the complete ordered (size,id) list, no exception. ~2.8e3 histories quick, 5e5 thorough.",
       _TB + " Writers with fewer than 1 + partitions x writes_per_chunk part numbers are outside the domain.", "DESIGN.md 5/C06")
+
+claim("C05", "file-content monitor: every file written by save_cog_with_dask(...).compute() is decoded by two independent readers (rasterio/GDAL, tifffile page/tag inspection) and its part-writer history is recorded at the MPUFileSink boundary; task orders randomised",
+      "Per configuration: GDAL pixels/dtype/band order/padding/transform/CRS/nodata and overview factors; tifffile: IFD count = levels+1 with levels re-derived from the statement, padded shape a "
+      "multiple of 2^levels, each overview exactly half, tile sizes multiples of 16 and as requested, all (offset,bytecount) intervals contiguous up to EOF with no gap/overlap, every overview "
+      "level stored before larger ones, level-0 decode equals the source, nearest overviews drawn from their 2x2 parent block; sink history (ids, sizes >= 4096 but the last, finalise once, "
+      "sum = file size). ~100 files quick / 1e4 thorough over shapes 1..200, 3 layouts, 8 dtypes, 8 blocksize lists, 4 compressions, random topological orders and 2-8 threads.",
+      _TB + " Known finding K4 (band-first cubes) is classified by mechanism.", "DESIGN.md 5/C05")
